@@ -34,10 +34,6 @@ namespace Stab.Props.C20
 section Graph
 open Stab.Topo
 
-/-- the four conditions of a valid stage graph -/
-def Valid (g : List Stage) : Prop :=
-  (g.map (·.ref)).Nodup ∧ NoSelfEdge g ∧ Known g ∧ Acyclic g
-
 /-- **toposort_sound.** Whatever `topological_sort` returns is a permutation of the (top-level)
     input in which every stage comes after all of its requisites.  No validity assumption. -/
 theorem toposort_sound (stages out : List Stage) (h : toposort stages = .ok out) :
@@ -217,7 +213,6 @@ theorem ordered_perm_implies_acyclic (g out : List Stage) (hnd : (g.map (·.ref)
   acyclic_congr (fun _ => hp.mem_iff) (acyclic_of_ordered (((hp.map _).nodup_iff).mpr hnd) ho)
 
 -- non-vacuity: a valid diamond, and one graph for each way of being invalid, in detection order
-private def diamond : List Stage := [⟨4, [2, 3], true⟩, ⟨2, [1], true⟩, ⟨1, [], true⟩, ⟨3, [1], true⟩]
 example : validate diamond = .ok () := by decide
 example : Valid (topLevel diamond) := (validate_ok_iff diamond).mp (by decide)
 example : toposort diamond = .ok [⟨1, [], true⟩, ⟨2, [1], true⟩, ⟨3, [1], true⟩, ⟨4, [2, 3], true⟩] := by decide
@@ -226,6 +221,12 @@ example : validate [⟨1, [1], true⟩] = .error (.selfEdge 1) := by decide
 example : validate [⟨1, [7], true⟩, ⟨2, [2], true⟩] = .error (.unknownRef 1 [7]) := by decide
 example : validate [⟨1, [2], true⟩, ⟨2, [3], true⟩, ⟨3, [1], true⟩, ⟨4, [], true⟩]
     = .error (.cycle [⟨1, [2], true⟩, ⟨2, [3], true⟩, ⟨3, [1], true⟩]) := by decide
+-- the hypotheses of `toposort_complete` / `toposort_stuck_has_cycle` are satisfiable
+example : Known (topLevel diamond) ∧ Acyclic (topLevel diamond) :=
+  let h := (validate_ok_iff diamond).mp (by decide); ⟨h.2.2.1, h.2.2.2⟩
+example : toposort [⟨1, [2], true⟩, ⟨2, [1], true⟩, ⟨3, [], true⟩] = .error [⟨1, [2], true⟩, ⟨2, [1], true⟩] := by decide
+-- without "known refs" a failing sort need not mean a cycle (why the hypothesis is there)
+example : toposort [⟨1, [9], true⟩] = .error [⟨1, [9], true⟩] := by decide
 -- synthetic stages (`top = false`) are ignored by both functions
 example : validate [⟨1, [], true⟩, ⟨1, [1, 9], false⟩] = .ok () := by decide
 -- a cycle in the sense of `Reach`
@@ -258,9 +259,6 @@ theorem evaluate_total (env : Env) (stack : Nat) (p : Parsed) : IsTotal (evaluat
   | syntaxError => exact .expr
   | parseRaised cls => exact .expr
   | tree e => exact eval_total_any_depth_budget env _ e
-
-private def emptyEnv : Env := { vars := [] }
-private def dEnv : Env := { vars := [("d", .dict [("k", .int 1)])] }
 
 /-- **F2, counterexample.** Of the code as found (`Guards.current`) totality is FALSE.  Witnesses:
     `-x` with `x` missing (TypeError), `d[[1]]` (TypeError: unhashable), 1000 nested `not` on a
@@ -344,8 +342,6 @@ theorem unsupported_raises_expression_error (g : Guards) (env : Env) (fuel : Nat
 
 -- non-vacuity: real conditions evaluate to values (`x.a[0] < 3 and not y`, chained compare, `in`,
 -- `True == 1`, tuple keys, ternary) and the refused ones are refused with ExpressionError
-private def ctx1 : Env :=
-  { vars := [("x", .dict [("a", .list [.int 1, .int 2])]), ("s", .str "abc"), ("n", .int 5)] }
 example : Expr.eval (.boolOp .and [.compare (.subscript (.attr (.name "x") "a") (.const (.int 0))) [(.lt, .const (.int 3))],
     .unary .not (.name "y")]) ctx1 = .ok (.bool true) := by rfl
 example : Expr.eval (.compare (.const (.int 1)) [(.lt, .name "n"), (.le, .const (.int 5))]) ctx1 = .ok (.bool true) := by rfl
@@ -408,12 +404,6 @@ theorem operator_tables_eq_model :
 theorem unary_supported_iff (g : Guards) (op : UnOp) (v : Value) :
     ExprShape.unaryOps.contains op.astName = false → unaryValue g op v = .error .expression := by
   cases op <;> simp [ExprShape.unaryOps, UnOp.astName, unaryValue]
-
-/-- names that would make evaluation able to execute code or touch the outside world -/
-def dangerousNames : List String :=
-  ["eval", "exec", "compile", "__import__", "getattr", "setattr", "delattr", "globals", "locals", "vars",
-   "open", "input", "breakpoint", "os", "sys", "subprocess", "importlib", "builtins", "__builtins__",
-   "pickle", "marshal", "ctypes", "socket", "shutil", "pathlib"]
 
 /-- **eval_pure (source).** `expressions.py` imports only `ast`, `operator` and typing helpers; no
     dangerous identifier occurs anywhere in the file (which also excludes aliasing such as
